@@ -577,3 +577,51 @@ def vocab_doc(r, obj, key, alt_index, position, member=None, enum_case=None):
     if it.kind == "block":
         it.node.parent = node
     return node, it
+
+
+# ------------------------------------------------------------------------------------------------
+# placed comments (C14): unique texts at the placements the property makes claims about
+
+
+def place_comments(nodes, r, p_trailing=0.7, p_above=0.7):
+    """Attach uniquely numbered comments: '#' or single-line '/* */' at the end of every simple (non-repeatable,
+    single-line) keyword line, '#' / '/* */' (also multi-line) lines directly above object / METADATA / VALIDATION /
+    CONNECTIONOPTIONS openers.  Returns the list of placements [(text, kind, keyword-or-type, owner id)]."""
+    n = [0]
+    placed = []
+
+    def uid():
+        n[0] += 1
+        return f"c{n[0]}"
+
+    def text(kind, multiline=False):
+        words = r.choice(["note", "TODO: check", "x = 1", "'quoted'", "été", "100%", "(parens)", "[bind]", "END", "LAYER"])
+        if kind == "#":
+            return f"# {uid()} {words}"
+        if multiline:
+            return f"/* {uid()} {words}\n   second line */"
+        return f"/* {uid()} {words} */"
+
+    for root in nodes:
+        for nd in root.walk():
+            if r.random() < p_above:
+                cs = []
+                for _ in range(r.choice([1, 1, 2])):
+                    k = r.choice(["#", "#", "/*"])
+                    cs.append(text(k, multiline=(k == "/*" and r.random() < 0.4)))
+                nd.above = cs
+                for c in cs:
+                    placed.append((c, "above", nd.type, id(nd)))
+            seen = set()
+            for it in nd.items:
+                if it.kind == "attr":
+                    multi = any(t.kind == "str" and "\n" in t.text for t in it.toks)
+                    if not multi and it.key not in seen and r.random() < p_trailing:
+                        it.comment = text(r.choice(["#", "#", "/*"]))
+                        placed.append((it.comment, "trailing", it.key, id(it)))
+                    seen.add(it.key)
+                elif it.kind == "kv" and it.key in ("metadata", "validation", "connectionoptions") and r.random() < p_above:
+                    cs = [text(r.choice(["#", "/*"]))]
+                    it.above = cs
+                    placed.append((cs[0], "above", it.key, id(it)))
+    return placed
